@@ -185,7 +185,7 @@ def mutants(names, budget_s=45):
         try:
             shutil.copytree(os.path.join(os.environ.get("TSIM_REPO", "/repo"), "src"), os.path.join(scratch, "src"))
             apply(os.path.join(scratch, "src"))
-            env = dict(os.environ, TSIM_TENSORA_SRC=os.path.join(scratch, "src"),
+            env = dict(os.environ, TSIM_TENSORA_SRC=os.path.join(scratch, "src"), TSIM_STOP_AT_FIRST="1",
                        TSIM_BUDGET_S=str(budget_s), TSIM_NO_EVIDENCE="1", VERIF_SEED=os.environ.get("VERIF_SEED", "0"))
             p = subprocess.run([os.path.join(VERIF, "bin", "check"), prop, "quick"], env=env,
                                capture_output=True, text=True, cwd=VERIF)
@@ -251,7 +251,7 @@ def seeded(names, budget_s=60):
                     continue
                 t0 = time.time()
                 env = dict(os.environ, TSIM_TENSORA_SRC=os.path.join(scratch, "src"),
-                           TSIM_BUDGET_S=str(budget_s), TSIM_NO_EVIDENCE="1",
+                           TSIM_BUDGET_S=str(budget_s), TSIM_NO_EVIDENCE="1", TSIM_STOP_AT_FIRST="1",
                            VERIF_SEED=os.environ.get("VERIF_SEED", "0"))
                 p = subprocess.run([os.path.join(VERIF, "bin", "check"), prop, "quick"], env=env,
                                    capture_output=True, text=True, cwd=VERIF)
